@@ -213,4 +213,66 @@ example : (grun selUpTo init (fun _ => none) witnessOps).2 1 = some ⟨5, true, 
 example : (grun selUpTo init (fun _ => none) [.block 3, .add 1 5, .add 1 9, .block 6]).2 1
     = some ⟨9, false, 0⟩ := by decide
 
+
+/-! ## Refinement to the one-registration-per-account specification -/
+
+/-- abstraction map: the spec state is the best height and the `expirations` map; the per-height buckets are
+representation only -/
+def abs (s : St) : Spec := { best := s.best, pending := s.exp }
+
+/-- **C09 / refinement, state**: under the representation invariant every watcher op commutes with the
+abstraction – the watcher *is* the spec "at most one live registration per account, gone once due". -/
+theorem C09_refines_state (s : St) (op : Op) (hI : Inv s) :
+    abs (step selUpTo s op).1 = (abs s).step op := by
+  cases op with
+  | add k h =>
+    unfold step Spec.step abs
+    by_cases hle : h ≤ s.best <;> simp [hle]
+  | block b =>
+    unfold step Spec.step abs
+    simp only [Spec.mk.injEq, true_and]
+    funext k
+    rw [visit_exp]
+    cases hk : s.exp k with
+    | none => rfl
+    | some h =>
+      have hm := (hI k h hk).1
+      simp [hm, selUpTo]
+
+/-- **C09 / refinement, outputs**: an op notifies account `k` exactly once if the spec fires `k` at that op, and
+not at all otherwise. -/
+theorem C09_refines_fires (s : St) (op : Op) (hI : Inv s) (k : Key) :
+    (Spec.fires (abs s) op k → cnt (step selUpTo s op).2 k = 1) ∧
+    (¬ Spec.fires (abs s) op k → cnt (step selUpTo s op).2 k = 0) := by
+  cases op with
+  | add k0 h =>
+    unfold step Spec.fires abs
+    by_cases hle : h ≤ s.best
+    · by_cases hk : k0 = k
+      · subst hk; simp [hle, cnt]
+      · have hk' : ¬ k = k0 := fun e => hk e.symm
+        simp [hle, cnt, hk, hk']
+    · simp [hle, cnt]
+  | block b =>
+    unfold step Spec.fires abs
+    simp only
+    rw [visit_cnt]
+    cases hk : s.exp k with
+    | none => simp
+    | some h =>
+      have hm := (hI k h hk).1
+      by_cases hb : h ≤ b <;> simp [hm, selUpTo, hb]
+
+/-- lifted to every history from the initial state: spec state and implementation state stay in step -/
+theorem C09_refines_run (ops : List Op) :
+    abs (final selUpTo init ops) = Spec.final Spec.init ops := by
+  have gen : ∀ (s : St), Inv s → abs (final selUpTo s ops) = Spec.final (abs s) ops := by
+    induction ops with
+    | nil => intro s _; rfl
+    | cons op ops ih =>
+      intro s hI
+      simp only [final, Spec.final]
+      rw [ih _ (inv_step s op hI), C09_refines_state s op hI]
+  exact gen init inv_init
+
 end Pool.C09
